@@ -1,6 +1,7 @@
 package main
 
 import (
+	"sort"
 	"fmt"
 	"os"
 	"go/token"
@@ -236,6 +237,43 @@ func addConjuncts(facts Facts, a *Atom) []*Atom {
 				facts.Add(n)
 				added = append(added, n)
 				added = append(added, addConjuncts(facts, n)...)
+			}
+		}
+	}
+	// (A && L) || (!A && L): a conjunct common to every disjunct holds (a predicate helper with several return paths
+	// that all end in the same test becomes such a term)
+	if t.Op == "or" && !a.Neg && len(t.Args) >= 2 {
+		conjs := func(x *Term) []*Term {
+			if x.Op == "and" {
+				return x.Args
+			}
+			return []*Term{x}
+		}
+		common := map[string]*Term{}
+		for _, c := range conjs(t.Args[0]) {
+			common[c.Key()] = c
+		}
+		for _, d := range t.Args[1:] {
+			here := map[string]bool{}
+			for _, c := range conjs(d) {
+				here[c.Key()] = true
+			}
+			for k := range common {
+				if !here[k] {
+					delete(common, k)
+				}
+			}
+		}
+		var keys []string
+		for k := range common {
+			keys = append(keys, k)
+		}
+		sort.Strings(keys)
+		for _, k := range keys {
+			if c := atomOf(common[k], a.Site); c != nil {
+				facts.Add(c)
+				added = append(added, c)
+				added = append(added, addConjuncts(facts, c)...)
 			}
 		}
 	}
@@ -950,6 +988,84 @@ func (f *Flow) computeLoopExit(l *Loop, outs map[*ssa.BasicBlock]Facts) Facts {
 			}
 		}
 	}
+	// the same idiom with a slice as the set: `if contains(seen, k) { leave }; seen = append(seen, k)` where `contains`
+	// is a library function that is a pure membership test (one loop over its slice, true exactly on an equal element)
+	for b := range l.Body {
+		if !l.dominatesAllLatches(b) {
+			continue
+		}
+		for _, in := range b.Instrs {
+			ap, ok := in.(*ssa.Call)
+			if !ok || !isBuiltin(ap, "append") || len(ap.Call.Args) != 2 {
+				continue
+			}
+			acc, ok := ap.Call.Args[0].(*ssa.Phi)
+			if !ok || acc.Block() != l.Header {
+				continue
+			}
+			// the accumulator starts empty outside the loop and is only ever extended by this append
+			okAcc := true
+			for i, e := range acc.Edges {
+				pred := acc.Block().Preds[i]
+				if l.Body[pred] {
+					if e != ssa.Value(ap) {
+						okAcc = false
+					}
+					continue
+				}
+				switch x := e.(type) {
+				case *ssa.MakeSlice:
+					if c, isC := x.Len.(*ssa.Const); !isC || c.Int64() != 0 {
+						okAcc = false
+					}
+				case *ssa.Const:
+					if !x.IsNil() {
+						okAcc = false
+					}
+				default:
+					okAcc = false
+				}
+			}
+			// the appended element: a one-element slice literal [k]
+			var kv ssa.Value
+			if sl, isSl := ap.Call.Args[1].(*ssa.Slice); isSl {
+				if al, isAl := sl.X.(*ssa.Alloc); isAl {
+					for _, r := range *al.Referrers() {
+						if ia, isIA := r.(*ssa.IndexAddr); isIA {
+							for _, r2 := range *ia.Referrers() {
+								if st, isSt := r2.(*ssa.Store); isSt && st.Addr == ssa.Value(ia) {
+									if kv != nil {
+										okAcc = false
+									}
+									kv = st.Val
+								}
+							}
+						}
+					}
+				}
+			}
+			if !okAcc || kv == nil {
+				continue
+			}
+			at := f.At(in)
+			if at == nil {
+				continue
+			}
+			accT, kT := f.C.Term(acc), f.C.Term(kv)
+			for _, fa := range at {
+				if fa.Pred != "truth" || !fa.Neg || len(fa.Args) != 1 || fa.Args[0].Op != "call" || len(fa.Args[0].Args) != 2 {
+					continue
+				}
+				ct := fa.Args[0]
+				if ct.Args[0].Key() != accT.Key() || ct.Args[1].Key() != kT.Key() {
+					continue
+				}
+				if g := f.A.calleeOf(ct); g != nil && isMembershipFn(g) {
+					res.Add(&Atom{Pred: "unique", Args: []*Term{coll, generalize(kT, l, coll)}, Site: f.A.P.InstrPos(in)})
+				}
+			}
+		}
+	}
 	// the same idiom with the check-and-insert inside a helper that is handed the set: every iteration that reaches
 	// a latch is known to have inserted a key that was absent (fresh), and nothing else touches the set
 	for _, a := range g {
@@ -1029,3 +1145,88 @@ func (f *Flow) insertOnlySet(mt *Term, l *Loop) *ssa.MakeMap {
 }
 
 var _ = token.ADD
+
+// isMembershipFn: func(s []T, x T) bool with one loop over s that returns true exactly when an element equals x
+// (x.Equal(e) / e.Equal(x) / bytes.Equal / ==) and false after the loop; no other effects.
+func isMembershipFn(g *ssa.Function) bool {
+	if len(g.Params) != 2 || g.Signature.Results().Len() != 1 || !isBoolType(g.Signature.Results().At(0).Type()) {
+		return false
+	}
+	if _, ok := g.Params[0].Type().Underlying().(*types.Slice); !ok {
+		return false
+	}
+	li := analyzeLoops(g)
+	if len(li.Loops) != 1 {
+		return false
+	}
+	l := li.Loops[0]
+	fromSlice := func(v ssa.Value) bool {
+		// an element of params[0]
+		switch x := v.(type) {
+		case *ssa.UnOp:
+			if ia, ok := x.X.(*ssa.IndexAddr); ok {
+				return ia.X == ssa.Value(g.Params[0])
+			}
+		case *ssa.Index:
+			return x.X == ssa.Value(g.Params[0])
+		}
+		return false
+	}
+	isEq := func(v ssa.Value) bool {
+		switch x := v.(type) {
+		case *ssa.Call:
+			var a0, a1 ssa.Value
+			if sc := x.Call.StaticCallee(); sc != nil && sc.Name() == "Equal" && len(x.Call.Args) == 2 {
+				a0, a1 = x.Call.Args[0], x.Call.Args[1]
+			} else {
+				return false
+			}
+			return (fromSlice(a0) && a1 == ssa.Value(g.Params[1])) || (fromSlice(a1) && a0 == ssa.Value(g.Params[1]))
+		case *ssa.BinOp:
+			if x.Op != token.EQL {
+				return false
+			}
+			return (fromSlice(x.X) && x.Y == ssa.Value(g.Params[1])) || (fromSlice(x.Y) && x.X == ssa.Value(g.Params[1]))
+		}
+		return false
+	}
+	nTrue, nFalse := 0, 0
+	for _, b := range g.Blocks {
+		for _, in := range b.Instrs {
+			switch x := in.(type) {
+			case *ssa.Return:
+				c, ok := x.Results[0].(*ssa.Const)
+				if !ok {
+					return false
+				}
+				if c.Value != nil && c.Value.String() == "true" {
+					nTrue++
+					// reached only through the true edge of an equality test inside the loop
+					if len(b.Preds) != 1 {
+						return false
+					}
+					p := b.Preds[0]
+					ifi, isIf := p.Instrs[len(p.Instrs)-1].(*ssa.If)
+					if !isIf || p.Succs[0] != b || !l.Body[p] || !isEq(ifi.Cond) {
+						return false
+					}
+				} else {
+					nFalse++
+					if l.Body[b] {
+						return false
+					}
+				}
+			case *ssa.Store, *ssa.MapUpdate, *ssa.Send, *ssa.Go, *ssa.Defer, *ssa.Panic:
+				return false
+			case *ssa.Call:
+				if _, isB := x.Call.Value.(*ssa.Builtin); isB {
+					continue // len / cap
+				}
+				if !isEq(x) && !isLoggingCall(&x.Call) {
+					return false
+				}
+			}
+		}
+	}
+	return nTrue == 1 && nFalse == 1
+}
